@@ -597,3 +597,90 @@ func c16SameKind(t string, rng *rand.Rand) string {
 	}
 	return t
 }
+
+// ---------- several files: programs that include others (compared with Idl/Include.v parse_fs) ----------
+func c16FileCase(kind, main string, files map[string]string) c16Case {
+	c := c16Case{Kind: kind, Input: B(main), Files: map[string]B{}}
+	for n, t := range files {
+		c.Files[n] = B(t)
+	}
+	return c
+}
+
+func c16GenFileCases(tier string, rng *rand.Rand) []c16Case {
+	var cs []c16Case
+	// the hand-written scenarios whose files sit beside in.tars
+	for _, sc := range c16ScenarioList {
+		ok := len(sc.Includes) == 0
+		for n := range sc.Files {
+			if strings.Contains(n, "/") {
+				ok = false
+			}
+		}
+		if ok {
+			cs = append(cs, c16FileCase("inc-scenario", sc.Main, sc.Files))
+		}
+	}
+	fixed := []struct {
+		main  string
+		files map[string]string
+	}{
+		{`#include "d.tars" module M { struct S { 0 require T t; }; };`, map[string]string{"d.tars": `module M { struct T { 0 require int x; }; };`}},                                     // same module name in both files: unqualified name resolves there
+		{`#include "d.tars" module M { struct S { 0 require M::T t; 1 optional E e = B; 2 optional M::E f = M::A; }; };`, map[string]string{"d.tars": `module M { enum E { A, B }; struct T { 0 require int x; }; };`}},
+		{`#include "d.tars" module M { struct S { 0 require T t; }; };`, map[string]string{"d.tars": `module D { struct T { 0 require int x; }; };`}},                                     // unqualified name of another module: undefined
+		{`#include "d.tars" module M { enum E { A }; struct S { 0 optional E e = A; 1 optional D::F f = A; }; };`, map[string]string{"d.tars": `module D { enum F { A, X }; };`}},       // own enum member wins
+		{`#include "d.tars" module M { struct S { 0 optional D::F f = X; 1 optional D::F g = D::X; }; };`, map[string]string{"d.tars": `module D { enum F { A, X }; };`}},
+		{`#include "d.tars" module M { struct S { 0 optional D::F f = X; }; };`, map[string]string{"d.tars": `module D { enum F { X }; enum G { X }; };`}},                                // conflict inside the included module
+		{`#include "d.tars" #include "e.tars" module M { struct S { 0 optional D::F f = X; 1 require E::T t; }; };`, map[string]string{"d.tars": `module D { enum F { X }; };`, "e.tars": `module E { enum G { X }; struct T { 0 require int x; }; };`}}, // first included file wins
+		{`#include "d.tars" #include "d.tars" module M { struct S { 0 require D::T t; }; };`, map[string]string{"d.tars": `module D { struct T { 0 require int x; }; };`}},               // the same file twice
+		{`#include "d.tars" module M { struct S { 0 require E::T t; 1 require vector<map<string, E::T>> v; 2 optional E::T a[2]; }; interface I { E::T f(D::U u, out map<int, E::T> m); }; };`,
+			map[string]string{"d.tars": `#include "e.tars" module D { struct U { 0 require E::T t; }; };`, "e.tars": `module E { struct T { 0 require int x; }; };`}},                   // through two levels
+		{`#include "d.tars" module M { struct S { 0 require D::U u; }; };`, map[string]string{"d.tars": `#include "e.tars" module D { struct U { 0 require E::Nope t; }; };`, "e.tars": `module E { };`}}, // error inside an included file
+		{`#include "d.tars" module M { };`, map[string]string{"d.tars": `module D { struct U { 0 require int a } };`}},                                                                // syntax error inside an included file
+		{`#include "d.tars" module M { };`, map[string]string{"d.tars": `#include "e.tars" module D { };`, "e.tars": `#include "f.tars" module E { };`, "f.tars": `#include "d.tars" module F { };`}}, // cycle not through the main file
+		{`#include "d.tars" module M { };`, map[string]string{"d.tars": `#include "e.tars" module D { };`, "e.tars": `#include "f.tars" module E { };`, "f.tars": `#include "g.tars" module F { };`, "g.tars": `module G { };`}},
+		{`#include "d.tars" module M { };`, map[string]string{"d.tars": `module D { }; module D2 { };`}},                                                                              // several modules in an included file
+		{`#include "d.tars" module M { struct S { 0 require D::T t; }; };`, map[string]string{"d.tars": ``}},                                                                         // empty included file
+		{`#include "d.tars"`, map[string]string{"d.tars": `module D { struct T { 0 require int x; }; };`}},                                                                          // no module in the main file
+		{`#include "d.tars" module M { struct S { 0 require D::T t; }; };`, map[string]string{"d.tars": "module D { struct T { 0 require int x; }; }; \x00 garbage"}},
+		{`#include "d.tars" module M { struct S { 0 require D::e x; 1 optional D::e y = k; }; };`, map[string]string{"d.tars": `module D { enum e { k }; };`}},
+	}
+	for _, f := range fixed {
+		cs = append(cs, c16FileCase("inc-corner", f.main, f.files))
+	}
+	n := 6
+	if tier == "thorough" {
+		n = 80
+	}
+	for p := 0; p < n; p++ {
+		dep := c16GenModule(rng, fmt.Sprintf("Dep%d", p), c16GenOpt{Small: true}, false)
+		use := c16GenModuleDep(rng, fmt.Sprintf("Use%d", p), c16GenOpt{Small: p%2 == 0, IdBase: 100}, true, dep)
+		depText, useText := c16Join(dep.toks(), rng, p%2), c16Join(use.toks(), rng, (p+1)%2)
+		files := map[string]string{dep.Name + ".tars": depText}
+		cs = append(cs, c16FileCase("inc-valid", useText, files))
+		cs = append(cs, c16FileCase("inc-missing", useText, map[string]string{}))
+		dt := dep.toks()
+		cs = append(cs, c16FileCase("inc-dep-mutated", useText, map[string]string{dep.Name + ".tars": c16Join(c16Mutate(dt, rng, 1+rng.Intn(2)), rng, 0)}))
+		cs = append(cs, c16FileCase("inc-dep-truncated", useText, map[string]string{dep.Name + ".tars": c16Join(dt[:rng.Intn(len(dt)+1)], rng, 0)}))
+		cs = append(cs, c16FileCase("inc-circular", useText, map[string]string{dep.Name + ".tars": `#include "in.tars" ` + depText}))
+		cs = append(cs, c16FileCase("inc-use-mutated", c16Join(c16Mutate(use.toks(), rng, 1+rng.Intn(2)), rng, 0), files))
+		// a third file between the two
+		mid := fmt.Sprintf("#include \"%s.tars\" module Mid%d { struct Box { 0 require %s::%s inner; }; };", dep.Name, p, dep.Name, c16FirstType(dep))
+		if c16FirstType(dep) != "" {
+			cs = append(cs, c16FileCase("inc-chain", strings.Replace(useText, `"`+dep.Name+`.tars"`, `"mid.tars"`, 1), map[string]string{"mid.tars": mid, dep.Name + ".tars": depText}))
+		}
+	}
+	return cs
+}
+
+func c16FirstType(m *c16Module) string {
+	for _, d := range m.Decls {
+		if d.S != nil {
+			return d.S.Name
+		}
+		if d.E != nil {
+			return d.E.Name
+		}
+	}
+	return ""
+}
